@@ -602,6 +602,8 @@ class Lib:
                     return VBool(obj.f["closed"])
             if obj.cls == "stat_result" and name == "st_blksize":
                 return obj.f["blk"]
+            if obj.cls == "stat_result" and name == "st_size":
+                return obj.f["st_size"]
             if obj.cls in EXC_PARENT:
                 if name == "args":
                     return VTuple([obj.f.get("msg", VOpaque())])
@@ -611,7 +613,9 @@ class Lib:
         if isinstance(obj, VPath):
             if name == "parent":
                 return self.dirname(it, obj)
-            if name in ("stem", "suffix", "name"):
+            if name == "name":
+                return self.basename(it, obj)
+            if name in ("stem", "suffix"):
                 return VObj("pathpiece", path=obj, piece=name)
             return VBound(obj, name)
         if isinstance(obj, VNone):
